@@ -37,6 +37,7 @@ type c08Case struct {
 	Lead   string // text between line start and the keyword (sets the column)
 	Pieces []yang.Piece
 	Joins  []string // trivia around each '+', len = len(Pieces)-1, each "<before>+<after>"
+	Bare   bool     // the statement is the whole text: it starts on the first line, behind Lead
 	Sep    string   // what separates the keyword from the argument ("" = one blank)
 	Tail   string   // what stands between the argument and the ';'
 }
@@ -48,7 +49,9 @@ var c08Tails = []string{" ", "\t", "\n", "\r\n", "\r\n  ", " \r\n", "\n  ", " //
 
 func (c *c08Case) text() (string, []int) {
 	var b strings.Builder
-	b.WriteString("module m {\n  namespace \"urn:m\";\n  prefix m;\n")
+	if !c.Bare {
+		b.WriteString("module m {\n  namespace \"urn:m\";\n  prefix m;\n")
+	}
 	b.WriteString(c.Lead)
 	b.WriteString("x:s")
 	if c.Sep == "" {
@@ -75,6 +78,10 @@ func (c *c08Case) text() (string, []int) {
 		}
 	}
 	b.WriteString(c.Tail)
+	if c.Bare {
+		b.WriteString(";\n")
+		return b.String(), cols
+	}
 	b.WriteString(";\n}\n")
 	return b.String(), cols
 }
@@ -229,6 +236,10 @@ func c08Gen(r *core.Rng) *c08Case {
 	}
 	if r.Chance(1, 4) {
 		c.Sep = core.Pick(r, c08Seps)
+	}
+	// the statement alone, from the first byte of the text (indented or not; not behind another statement)
+	if !strings.Contains(c.Lead, ";") && r.Chance(1, 5) {
+		c.Bare = true
 	}
 	if r.Chance(1, 3) {
 		c.Tail = core.Pick(r, c08Tails)
